@@ -5,6 +5,7 @@ mutation* so that the result passes the integrity guards and reaches the logic b
 
 v2 recipe  {"t":"v2", "frame":hex, "body": "valid"|"ct"|"plain", "ct":hex, "plain":hex, "lenfield":int|None,
             "sign":"ok"|"bad"|"none", "marker":hex, "trunc":int|None, "append":hex, "magic":hex}
+rep recipe {"t":"rep", "n":int, "item":recipe, "tail":recipe|None}      (a burst of n copies)
 v3 recipe  {"t":"v3", "ptype":0..15, "inner": recipe|{"t":"raw","data":hex}, "enc":"ok"|"wrongkey"|"clear"|"ct",
             "ct":hex, "tag":"ok"|"bad"|"none", "pad":int|None, "size":int|None, "magic":int, "cnt":int, "trunc":int|None,
             "append":hex}
@@ -32,6 +33,9 @@ def build(recipe: dict, session_key: Optional[bytes]) -> bytes:
         return _build_v3(recipe, session_key)
     if t == "seq":
         return b"".join(build(r, session_key) for r in recipe["items"])
+    if t == "rep":
+        # a burst: the same packet n times, optionally followed by one more recipe
+        return build(recipe["item"], session_key) * int(recipe["n"]) + (build(recipe["tail"], session_key) if recipe.get("tail") else b"")
     raise ValueError(t)
 
 
